@@ -34,26 +34,26 @@ type Case struct {
 }
 
 type Event struct {
-	Seq    uint64 `json:"seq"`
-	Ev     string `json:"ev"`
-	Case   int    `json:"beh"`
-	Kind   string `json:"kind"`
-	Node   int    `json:"node"`
-	To     int    `json:"to"`
-	ID     string `json:"id"`
-	Len    int    `json:"len"`
-	Digest string `json:"digest"`
-	DigOut string `json:"digestout"`
-	Src    string `json:"src"`
-	Dst    string `json:"dst"`
-	SrcOK  bool   `json:"srcok"`
-	DstOK  bool   `json:"dstok"`
-	Err    string `json:"err"`
-	MTU    int    `json:"mtu"`
+	Seq    uint64   `json:"seq"`
+	Ev     string   `json:"ev"`
+	Case   int      `json:"beh"`
+	Kind   string   `json:"kind"`
+	Node   int      `json:"node"`
+	To     int      `json:"to"`
+	ID     string   `json:"id"`
+	Len    int      `json:"len"`
+	Digest string   `json:"digest"`
+	DigOut string   `json:"digestout"`
+	Src    string   `json:"src"`
+	Dst    string   `json:"dst"`
+	SrcOK  bool     `json:"srcok"`
+	DstOK  bool     `json:"dstok"`
+	Err    string   `json:"err"`
+	MTU    int      `json:"mtu"`
 	Addrs  []string `json:"addrs"`
-	Vec    bool   `json:"vec"`
-	Panic  bool   `json:"panic"`
-	PanicV string `json:"panicv"`
+	Vec    bool     `json:"vec"`
+	Panic  bool     `json:"panic"`
+	PanicV string   `json:"panicv"`
 }
 
 var seq atomic.Uint64
@@ -140,6 +140,12 @@ func runCase(c *Case, w *trace.Writer, seed int64, hammer bool) {
 						}
 						time.Sleep(time.Duration(rand.Intn(50)) * time.Microsecond) // keep the callback open for a moment
 						out := digest(payload)
+						// "All of the message's fields may be modified inside fn": the callback owns the buffer until it
+						// returns. Overwrite it: a swarm that hands the same buffer to another callback (now or later) or
+						// reads it again shows up as a delivery of bytes nobody told.
+						for i := range payload {
+							payload[i] = 0xA5
+						}
 						emit(Event{Ev: "recv", Node: 0, ID: id, Len: n, Digest: in, DigOut: out, Src: src, Dst: dst, SrcOK: srcOK, DstOK: dstOK})
 					})
 				}()
